@@ -17,14 +17,14 @@ DRAWS = st.lists(
 
 WIDTHS = [1, 1, 2, 2, 3, 4, 8, 16]
 
-LINEAR_CFG = st.builds(lambda w, d: {"kind": "linear", "width": w, "depth": d}, st.sampled_from(WIDTHS), st.integers(1, 4))
-_AT = st.sampled_from([None, None, "u64"])
+LINEAR_CFG = st.builds(lambda w, d, f: {"kind": "linear", "width": w, "depth": d, **({"factory": True} if f else {})}, st.sampled_from(WIDTHS), st.integers(1, 4), st.sampled_from([False, False, True]))
+_AT = st.sampled_from([None, None, "u64", "factory"])
 LOG8_CFG = st.builds(
-    lambda w, d, mc, nr, at: {"kind": "log8", "width": w, "depth": d, "max_count": mc, "num_reserved": nr, **({"argtype": at} if at else {})},
+    lambda w, d, mc, nr, at: {"kind": "log8", "width": w, "depth": d, "max_count": mc, "num_reserved": nr, **({"factory": True} if at == "factory" else {"argtype": at} if at else {})},
     st.sampled_from(WIDTHS), st.integers(1, 4), st.sampled_from([300, 1000, 1004, 1024, 5000, 10**9, CEIL]), st.sampled_from([0, 0, 1, 3, 15]), _AT,
 )
 LOG16_CFG = st.builds(
-    lambda w, d, mc, nr, at: {"kind": "log16", "width": w, "depth": d, "max_count": mc, "num_reserved": nr, **({"argtype": at} if at else {})},
+    lambda w, d, mc, nr, at: {"kind": "log16", "width": w, "depth": d, "max_count": mc, "num_reserved": nr, **({"factory": True} if at == "factory" else {"argtype": at} if at else {})},
     st.sampled_from(WIDTHS), st.integers(1, 4), st.sampled_from([70000, 10**6, 10**7, 10**8, CEIL]), st.sampled_from([0, 0, 1, 3, 15, 1023]), _AT,
 )
 ANY_CMS_CFG = st.one_of(LINEAR_CFG, LOG8_CFG, LOG16_CFG)
